@@ -208,4 +208,79 @@ def searchFrom (c : Codec) (g : Group) (height : Nat) (ignore : Bool) : Nat → 
 def search (c : Codec) (g : Group) (height : Nat) (ignore : Bool) : Search :=
   searchFrom c g height ignore (g.files.length + 1) 0
 
+/-! ## checkTotalSizeLimit: the oldest files are deleted; the group's own `minIndex` is only recomputed by `OpenGroup` -/
+
+/-- the removal loop of `checkTotalSizeLimit` (at most `maxFilesToRemove = 4` rounds = the fuel): `total` = bytes of all
+files incl. the head, `sizes` = the rotated files that still exist, oldest first.  Result: how many are removed.
+An empty `sizes` is `index == gInfo.MaxIndex` (only the head is left): nothing is removed. -/
+def pruneLoop (limit : Nat) : Nat → Nat → List Nat → Nat
+  | 0, _, _ => 0
+  | _ + 1, _, [] => 0
+  | f + 1, total, s :: rest => if total < limit then 0 else 1 + pruneLoop limit f (total - s) rest
+
+/-- `checkTotalSizeLimit` with `totalSizeLimit = limit` (0 = no limit) -/
+def pruneCount (limit : Nat) (sizes : List Nat) (headSize : Nat) : Nat :=
+  if limit = 0 then 0 else pruneLoop limit 4 (sizes.sum + headSize) sizes
+
+/-- `Group.NewReader(i)` when the `gone` oldest files have been deleted -/
+def Group.canOpenP (gone : Nat) (g : Group) (i : Nat) : Bool := decide (gone ≤ i) && g.canOpen i
+
+/-- SearchForEndHeight's outer loop `for index := max; index >= min; index--` with the group's `minIndex = lo` (stale
+after a deletion: it still names a deleted file, whose `NewReader` fails) -/
+def searchFromP (c : Codec) (g : Group) (height : Nat) (ignore : Bool) (gone lo : Nat) : Nat → Nat → Search
+  | 0, _ => Search.notFound
+  | i + 1, last =>
+    if i < lo then Search.notFound
+    else if g.canOpenP gone i then
+      let s := g.stream i
+      match scanF c g.tail height ignore (s.length + 1) s last with
+      | Scan.found rest => Search.found i rest
+      | Scan.atEof last' =>
+        if last' > 0 ∧ last' < height then Search.notFound else searchFromP c g height ignore gone lo i last'
+      | Scan.err r => Search.err r
+    else Search.openFailed
+
+def searchP (c : Codec) (g : Group) (height : Nat) (ignore : Bool) (gone lo : Nat) : Search :=
+  searchFromP c g height ignore gone lo (g.files.length + 1) 0
+
+/-! ## consensus/replay.go: catchupReplay -/
+
+/-- `ConsensusState.OnStart` → `OpenWAL` → `NewWAL` + `baseWAL.OnStart` on the files found on disk: the bufio content of the
+crashed process is gone, `OpenAutoFile` creates the head, and an EMPTY head gets `WriteSync(EndHeightMessage{0})`
+(`auto0` = the payload of that record; its time stamp is the wall clock, so the model is given a stand-in) -/
+def Group.startWal (c : Codec) (auto0 : Bytes) (g : Group) : Group :=
+  let g := g.crash
+  if (g.head.getD []).isEmpty then { g with head := some (frame c auto0) } else g
+
+/-- how `catchupReplay(csHeight)` ends -/
+inductive Outcome
+  | done                 -- "Replay: Done"
+  | hasMarker            -- "WAL should not contain #ENDHEIGHT csHeight"
+  | noMarker             -- "Cannot replay height …. WAL does not contain #ENDHEIGHT for csHeight-1"
+  | err (r : Res)        -- a read error of one of the two searches or of the replay loop (OnStart logs it and goes on)
+  | openFailed
+  | panicCorrupt         -- DataCorruptionError in the replay loop: panic("data has been corrupted … in last height")
+deriving DecidableEq, Repr
+
+/-- `catchupReplay(csHeight)`: the sanity search for `csHeight` (must be absent), the search for `csHeight-1`, then every
+record after that marker is handed to `readReplayMessage` (EndHeight records are skipped there) until io.EOF.
+Result: the payloads replayed, in order, and the outcome. -/
+def catchup (c : Codec) (g : Group) (csHeight : Nat) : List Bytes × Outcome :=
+  match search c g csHeight true with
+  | Search.err r => ([], Outcome.err r)
+  | Search.openFailed => ([], Outcome.openFailed)
+  | Search.found _ _ => ([], Outcome.hasMarker)
+  | Search.notFound =>
+    match search c g (csHeight - 1) true with
+    | Search.err r => ([], Outcome.err r)
+    | Search.openFailed => ([], Outcome.openFailed)
+    | Search.notFound => ([], Outcome.noMarker)
+    | Search.found _ rest =>
+      let r := decodeAll c g.tail rest
+      (r.1.filter (fun p => (c.eh p).isNone),
+        match r.2 with
+        | Res.eof => Outcome.done
+        | Res.corrupt => Outcome.panicCorrupt
+        | e => Outcome.err e)
+
 end Model.Wal
